@@ -18,7 +18,9 @@ if [ "$SKIP_TESTS" != "1" ]; then
 else tests="(skipped)"; fi
 echo "tests on changed tree: $tests"
 cd /verif
+cp evidence/$id.json /tmp/evidence_$id.keep 2>/dev/null   # a full run against the changed tree must not replace the evidence of the run against /repo
 VERIF_REPO=$wt ./check $id "$@" > /tmp/seed_${id}_check.log 2>&1; rc=$?
+cp /tmp/evidence_$id.keep evidence/$id.json 2>/dev/null
 nv=$(grep -c "^VIOLATION" /tmp/seed_${id}_check.log)
 echo "check exit $rc, $nv VIOLATION lines"; grep "^VIOLATION" /tmp/seed_${id}_check.log | head -5; tail -1 /tmp/seed_${id}_check.log
 cp $out/patch.diff $out/demo.cpp $out/README.md $dst/ 2>/dev/null
